@@ -4,6 +4,7 @@ package main
 // the session lookup and the expiry sweep — conditions, message-literal fields and call order.
 
 import (
+	"fmt"
 	"go/ast"
 	"go/constant"
 	"go/token"
@@ -182,6 +183,27 @@ func (x *extractor) genExprs() {
 		} else {
 			put("apply.idAfterErrorCheck", "false")
 		}
+		// the handler must wait for the commit itself: no goroutine, select or timer that could make it
+		// return while the entry is still in flight (a client that is told "failed" retries)
+		async := 0
+		var waits []string
+		ast.Inspect(fd.Body, func(n ast.Node) bool {
+			switch v := n.(type) {
+			case *ast.GoStmt, *ast.SelectStmt:
+				async++
+			case *ast.IfStmt:
+				if v.Init != nil && strings.Contains(stmtString(api.Fset, v.Init), "f.Error()") {
+					waits = append(waits, stmtString(api.Fset, v.Init)+" ; "+exprString(api.Fset, v.Cond)+" ; "+strings.Join(strings.Fields(stmtString(api.Fset, v.Body)), " "))
+				}
+			case *ast.CallExpr:
+				if strings.HasPrefix(exprString(api.Fset, v.Fun), "time.After") {
+					async++
+				}
+			}
+			return true
+		})
+		put("apply.async", fmt.Sprint(async))
+		put("apply.wait", strings.Join(waits, " || "))
 	}
 	if fd := findFunc(api, "HTTP", "handleGetMessages"); fd != nil {
 		if is := findIf(api, fd, "InterestingFor"); is != nil {
